@@ -363,6 +363,11 @@ class Check:
                 self.transitions += v["events"]
                 self.cov.setdefault("traces", []).append(dict(label=lab, events=v["events"], mismatches=len(v["bad"]), tlc_wall_s=round(v["wall_s"], 1)))
                 for b in v["bad"]:
+                    if b.get("soft"):
+                        # values agree with the specification but an internal representation differs from a limb-exact kernel model:
+                        # the model is stale for this code, which is a limit of the evidence and not a violation
+                        self.cov.setdefault("stale_kernel_models", []).append(dict(label=lab, op=b.get("op"), line=b.get("line"), why=list((b.get("why") or {}).keys())))
+                        continue
                     self.add_violation("%s %s line %s" % (lab, b.get("op"), b.get("line")), dict(label=lab, trace=tp, mismatch=b, script=(script_of or {}).get(lab) or guess_script(tp)))
         return res
 
